@@ -83,6 +83,8 @@ var compactCache = map[string]string{}
 
 var extraCalls int
 
+var failing []*formula.SourceCode
+
 // EvalText parses and evaluates text against data (nil = no map).
 func EvalText(text string, data map[string]interface{}) EvalOut {
 	if Perturb != nil {
@@ -146,6 +148,19 @@ func EvalText(text string, data map[string]interface{}) EvalOut {
 		// function) is as good as a new one once it is handed this data.
 		if usedRunner == nil {
 			usedRunner = formula.NewRunner()
+		}
+		// ... whose past includes failed evaluations of every kind (recovered panics, reported misuse)
+		if extraCalls%5 == 0 {
+			if failing == nil {
+				for _, f := range []string{"left('a', 0 - 1)", "null!.x", "undefinedFn()", "[1] == [1]", "regexp('a', '(')", "mid('abc', 2, 1)", "zz.a = 1", "(1)()", "max()", "lpad('a', 'b', 0 - 2) + 1", "[1, [2, null!.k]]", "true ? zq!.w!.e : 0"} {
+					if q := Parse([]byte(f)); q.OK() {
+						failing = append(failing, q.Src)
+					}
+				}
+			}
+			for _, q := range failing {
+				Eval(usedRunner, context.Background(), q.Expression)
+			}
 		}
 		usedRunner.SetThis(data)
 		if c := Eval(usedRunner, context.Background(), p.Src.Expression).String(); c != a {
